@@ -169,7 +169,7 @@ func c15Bases(c *vlib.Ctx) []CfgLit {
 		richOrigins,
 	}
 	ms := [][]string{nil, {"PUT", "patch", "DELETE"}, {"*", "PUT"}, {"QUERY", "query", "Query", "GET"}, richMethods}
-	qs := [][]string{nil, {"X-B", "x-a", "X-C", "X-R", "X-S"}, {"*", "Authorization"}, {"*", "Authorization", "X-B", "x-a"}, {"Authorization", "X-A"}, {"*"}, append([]string{"Authorization"}, richReqHdrs...)}
+	qs := [][]string{nil, {"X-B", "x-a", "X-R", "X-S"}, {"*", "Authorization"}, {"*", "Authorization", "X-B", "x-a"}, {"Authorization", "X-A"}, {"*"}, append([]string{"Authorization"}, richReqHdrs...)}
 	rs := [][]string{nil, {"X-R", "x-q", "X-S"}, {"*", "X-R"}, richResHdrs}
 	var out []CfgLit
 	for _, o := range os {
